@@ -262,7 +262,35 @@ def lockset(ctx) -> None:
     ctx.floor('R-LOCKSET', n, 5)
 
 
+def per_instance(ctx) -> None:
+    """Correlation state (pending futures, task counters, executor caches, queues) belongs to one executor / dealer / wrapper:
+    nothing mutated through self may be a container bound once in the class body (shared by every instance)."""
+    prog = ctx.prog
+    shared.perinstance_selfcheck()
+    scope = [c for c in prog.classes.values() if c.module.name.startswith(('forml.runtime._service', 'forml.provider.runner.pyfunc', 'forml.provider.gateway', 'forml.runtime._agent'))]
+    ctx.floor('R-PERINSTANCE.classes', len(scope), 10)
+    n = shared.r_perinstance(ctx, scope)
+    # every attribute the executor mutates is (re)bound in its own __init__
+    ex = prog.cls(f'{PRED}:Executor')
+    init = ex.methods.get('__init__')
+    bound = {t.attr for x in core.walk_local(init) if isinstance(x, (ast.Assign, ast.AnnAssign)) for t in (x.targets if isinstance(x, ast.Assign) else [x.target]) if isinstance(t, ast.Attribute) and core.src(t.value) == 'self'} if init is not None else set()
+    used = set()
+    for mname, m in ex.methods.items():
+        if mname == '__init__':
+            continue
+        for x in core.walk_local(m):
+            if isinstance(x, ast.Attribute) and core.src(x.value) == 'self' and x.attr.startswith('_') and not x.attr.startswith('__') and isinstance(x.ctx, ast.Store):
+                used.add(x.attr)
+        for site, a in shared.container_writes(m, {a.attr for a in core.walk_local(m) if isinstance(a, ast.Attribute) and core.src(a.value) == 'self'}):
+            if a.startswith('_') and not a.startswith('__'):
+                used.add(a)
+    inherited = {'_target', '_args', '_kwargs', '_started', '_is_stopped', '_tstate_lock'}  # threading.Thread internals
+    missing = sorted(a for a in used - bound - inherited if a not in ex.methods)
+    ctx.check(not missing, 'R-PERINSTANCE', ex.ref, f'every attribute the executor mutates is bound per instance in __init__ (not bound there: {missing}; examined {n} class-level containers in the serving scope)', key='Executor:init-bound', loc=ex.module.relpath)
+
+
 def run(ctx) -> None:
+    per_instance(ctx)
     worker_loop(ctx)
     id_correlation(ctx)
     dealer(ctx)
